@@ -102,7 +102,8 @@ func Copy(ctx context.Context, srcRoot, src, dstRoot, dst string, opts ...Opt) e
 		modeSet = &ms
 	}
 
-	dst, err := fs.RootPath(dstRoot, filepath.Clean(dst))
+	dstArg := dst
+	dst, err := fs.RootPath(dstRoot, filepath.Clean(dstArg))
 	if err != nil {
 		return err
 	}
@@ -124,7 +125,15 @@ func Copy(ctx context.Context, srcRoot, src, dstRoot, dst string, opts ...Opt) e
 		srcs = matches
 	}
 
-	for _, src := range srcs {
+	for i, src := range srcs {
+		if i > 0 {
+			// an earlier source may have left a symlink at the destination
+			// path: resolve it inside the destination root again instead
+			// of following it with plain filesystem calls
+			if dst, err = fs.RootPath(dstRoot, filepath.Clean(dstArg)); err != nil {
+				return err
+			}
+		}
 		srcFollowed, err := rootPath(srcRoot, src, ci.FollowLinks)
 		if err != nil {
 			return err
